@@ -5,6 +5,15 @@ From Coq Require Import List NArith ZArith Bool.
 From VRL Require Import Base.Bytes Base.Value Base.Lit Model.PathText Model.VrlPathLex.
 Import ListNotations.
 
+(* compact literal for a text in case files: `nb k 0xHEX` = the k bytes of the big-endian numeral
+   (reading a hex numeral is much cheaper for coqc than a string literal; the run ships ~10^5 texts) *)
+Fixpoint nbf (k : nat) (n : N) (acc : list N) : list N :=
+  match k with
+  | O => acc
+  | S k' => nbf k' (N.div n 256) (N.modulo n 256 :: acc)
+  end.
+Definition nb (k : nat) (n : N) : text := nbf k n [].
+
 (* Program::info().target_queries *)
 Inductive cres := COk (l : list tpath) | CErr | CPanic.
 
@@ -18,7 +27,13 @@ Inductive case :=
          (tg : pres tpath) (tgr : option (text * pres tpath))
 (* the text as a VRL program: the single external query of the AST (if that is what it is), the compiled
    program's target_queries, and parse_target_path of the same text *)
-| CVrl (t : text) (ast : option tpath) (comp : cres) (tg : pres tpath).
+| CVrl (t : text) (ast : option tpath) (comp : cres) (tg : pres tpath)
+(* a whole block of texts at once: every text pre ++ w, w a word of exactly n symbols of alpha (first symbol
+   major).  `loud` = the texts of the block, in that order, on which the implementation returned anything but
+   errors (parse kind: parse_value_path or parse_target_path not Err; vrl kind: a path AST, parse_target_path
+   not Err, or a compiler panic).  Those texts are also shipped as individual CParse / CVrl cases; this case
+   carries the claim about all the others. *)
+| CExhaust (vrl : bool) (pre : text) (alpha : list text) (n : nat) (loud : list text).
 
 Definition rerender_ok {A} (eqb : A -> A -> bool) (rend : A -> text) (parse : text -> pres A)
            (v : pres A) (vr : option (text * pres A)) : bool :=
@@ -27,6 +42,35 @@ Definition rerender_ok {A} (eqb : A -> A -> bool) (rend : A -> text) (parse : te
   | POk _, None => false
   | _, None => true
   | _, Some _ => false
+  end.
+
+Definition is_err {A} (r : pres A) : bool := match r with PErr => true | _ => false end.
+
+(* the model says: nothing but errors on t *)
+Definition quiet (vrl : bool) (t : text) : bool :=
+  if vrl then is_err (parse_target_path t)
+              && (if vrl_modelled t then match vrl_path t with None => true | Some _ => false end else true)
+  else is_err (parse_value_path t) && is_err (parse_target_path t).
+
+Inductive wres := WOk (rest : list text) | WBad (t : text).
+
+(* walks the block in order, consuming the implementation's list of loud texts; stops at the first text that
+   the implementation left out of the list although the model is not quiet on it *)
+Fixpoint ex_walk (vrl : bool) (alpha : list text) (n : nat) (pre : text) (loud : list text) : wres :=
+  match n with
+  | O => match loud with
+         | o :: rest => if bytes_eqb o pre then WOk rest
+                        else if quiet vrl pre then WOk loud else WBad pre
+         | [] => if quiet vrl pre then WOk [] else WBad pre
+         end
+  | S k => (fix go (syms : list text) (loud : list text) : wres :=
+              match syms with
+              | [] => WOk loud
+              | a :: syms' => match ex_walk vrl alpha k (pre ++ a) loud with
+                              | WOk rest => go syms' rest
+                              | bad => bad
+                              end
+              end) alpha loud
   end.
 
 Definition check (c : case) : bool :=
@@ -41,6 +85,8 @@ Definition check (c : case) : bool :=
   | CVrl t ast comp tg =>
       pres_eqb tpath_eqb (parse_target_path t) tg
       && (if vrl_modelled t then opt_tpath_eqb (vrl_path t) ast else true)
+  | CExhaust vrl pre alpha n loud =>
+      match ex_walk vrl alpha n pre loud with WOk [] => true | _ => false end
   end.
 
 Definition is_panic {A} (r : pres A) : bool := match r with PPanic => true | _ => false end.
@@ -70,13 +116,15 @@ Definition oracle (c : case) : bool :=
           | None, CPanic => false
           | None, _ => true
           end)
+  | CExhaust _ _ _ _ _ => true        (* errors everywhere satisfy the laws; the loud texts have their own cases *)
   end.
 
 (* what the model says, for replay files *)
 Inductive mout :=
 | MRender (txt : text) (re : pres tpath)
 | MParse (v : pres path) (tg : pres tpath)
-| MVrl (modelled : bool) (ast : option tpath) (tg : pres tpath).
+| MVrl (modelled : bool) (ast : option tpath) (tg : pres tpath)
+| MExhaust (w : wres).      (* WBad t: the first text on which the model is not quiet but the implementation is *)
 
 Definition lift_value (r : pres path) : pres tpath :=
   match r with POk p => POk (Event, p) | PErr => PErr | PPanic => PPanic | PUnreachable => PUnreachable end.
@@ -87,4 +135,5 @@ Definition model_out (c : case) : mout :=
   | CRenderT tp _ _ => MRender (render_target tp) (parse_target_path (render_target tp))
   | CParse t _ _ _ _ => MParse (parse_value_path t) (parse_target_path t)
   | CVrl t _ _ _ => MVrl (vrl_modelled t) (vrl_path t) (parse_target_path t)
+  | CExhaust vrl pre alpha n loud => MExhaust (ex_walk vrl alpha n pre loud)
   end.
